@@ -72,6 +72,7 @@ class Trace:
         self.coords_read = set()
         self.switch_labels = []  # list of label tuples, one per switch executed
         self.exit_paths = []     # paths of inlined callees that terminate the process
+        self.frozen_values = {}  # frozen name -> [terms assigned]
         self.obj_calls = []      # library method calls on member objects: (path, method, arg terms, loc)
 
 
@@ -101,6 +102,7 @@ class Evaluator:
         self.opaque = set(opaque)      # function names never inlined
         self.regmap = regmap            # registered parameter name -> member path (set_var modelled as a store)
         self.noreturn = set(noreturn)  # repository functions that never return (proved by C16.R4)
+        self.freeze = {}               # local / member name -> symbol: reads yield the symbol, assigned values are recorded
         self.trace = Trace()
         self.memo = {}
 
@@ -145,6 +147,8 @@ class Evaluator:
             v = P.locals.get((fr['id'], e['id']))
             if v is None:
                 return ('unk', 'uninitialised local ' + e['n'])
+            if e['n'] in self.freeze:
+                return ('sym', self.freeze[e['n']])
             return v
         if k == 'global':
             q = e['q']
@@ -304,6 +308,8 @@ class Evaluator:
 
     def read_member(self, path, P, loc):
         if path in P.mem:
+            if path in self.freeze:
+                return ('sym', self.freeze[path])
             return P.mem[path]
         self.trace.pre_reads.setdefault(path, loc)
         return ('sym', path)
@@ -313,6 +319,8 @@ class Evaluator:
         k = t.get('k')
         if k == 'local':
             P.locals[(fr['id'], t['id'])] = v
+            if t['n'] in self.freeze:
+                self.trace.frozen_values.setdefault(t['n'], []).append(v)
             if t.get('static'):
                 self.trace.static_locals.append((t['n'], loc))
             return
@@ -320,6 +328,8 @@ class Evaluator:
             path = self.mpath(t, P, fr)
             if path is not None:
                 P.mem[path] = v
+                if path in self.freeze:
+                    self.trace.frozen_values.setdefault(path, []).append(v)
                 self.trace.writes.setdefault(path, []).append(loc)
                 P.events.append(('write', path, loc))
                 return
@@ -650,6 +660,8 @@ class Evaluator:
                     self.trace.static_locals.append((v['n'], v.get('l')))
                 if v.get('init') is not None:
                     P.locals[(fr['id'], v['id'])] = self.E(v['init'], P, fr)
+                    if v['n'] in self.freeze:
+                        self.trace.frozen_values.setdefault(v['n'], []).append(P.locals[(fr['id'], v['id'])])
                 else:
                     P.locals.pop((fr['id'], v['id']), None)
             return [P]
